@@ -117,7 +117,7 @@ impl<'t> FieldTypeAndInstantiationsBuilder<'t, '_> {
 					format!(#pattern, namespace.get())
 				}
 			}
-			Some(namespace) => {
+			Some(namespace) => 'new_name: {
 				let namespace_prefix = if namespace.is_empty() {
 					"".to_owned()
 				} else {
@@ -128,17 +128,24 @@ impl<'t> FieldTypeAndInstantiationsBuilder<'t, '_> {
 						format!("{}{}", namespace_prefix, struct_name.unraw())
 					}
 					FieldKind::StructField {
-						struct_name: type_name,
-						field_name: field_or_variant_name,
+						struct_name: _,
+						field_name,
+					} => {
+						// As when there is no namespace override: build from the runtime
+						// `type_name` of the struct, which holds the namespace and, for
+						// generic structs, the per-instantiation suffix (otherwise two
+						// instantiations would define the same name twice)
+						let pattern = format!(r#"{{}}.{}"#, field_name.unraw());
+						break 'new_name quote! { format!(#pattern, type_name) };
 					}
-					| FieldKind::NewtypeVariant {
-						enum_name: type_name,
-						variant_name: field_or_variant_name,
+					FieldKind::NewtypeVariant {
+						enum_name,
+						variant_name,
 					} => format!(
 						"{}{}.{}",
 						namespace_prefix,
-						type_name.unraw(),
-						field_or_variant_name.unraw(),
+						enum_name.unraw(),
+						variant_name.unraw(),
 					),
 				};
 				quote! { #type_name.to_owned() }
